@@ -2,6 +2,7 @@
 C19 — helper lemmas: stable sort, the bind loop, `find?`-based routing.
 -/
 import IrohModel.C19.Model
+import IrohModel.C20.Theorems
 
 namespace IrohModel.C19
 
@@ -214,5 +215,155 @@ theorem find?_sorted_max (p : Cfg → Bool) (l : List Cfg) (hs : SortedDesc l) (
       rcases List.mem_cons.mp hc' with rfl | hc'
       · rw [hp] at hpd; cases hpd
       · exact ih hd.2 h c' hc' hp
+
+/-! ### Builder → `Transports::bind` -/
+
+/-- Accumulator of the bind loop for family `f`. -/
+def accOf (f : Fam) (v4 v6 : List Cfg) : List Cfg :=
+  match f with
+  | .v4 => v4
+  | .v6 => v6
+
+/-- A duplicate-default error means two bindable default routes of that family. -/
+theorem bindLoop_dup (cs : List Cfg) :
+    ∀ (v4 v6 : List Cfg) (h4 h6 : Bool) (f : Fam),
+      h4 = v4.any (·.isDefault) → h6 = v6.any (·.isDefault) →
+      bindLoop cs v4 v6 h4 h6 = .error (.dupDefault f) →
+      2 ≤ ((accOf f v4 v6).filter (·.isDefault)).length + ((boundOf f cs).filter (·.isDefault)).length := by
+  induction cs with
+  | nil => intro v4 v6 h4 h6 f _ _ h; simp [bindLoop] at h
+  | cons c cs ih =>
+    intro v4 v6 h4 h6 f hh4 hh6 h
+    simp only [bindLoop] at h
+    have anyPos : ∀ (l : List Cfg), l.any (·.isDefault) = true → 1 ≤ (l.filter (·.isDefault)).length := by
+      intro l hl
+      obtain ⟨x, hx, hxd⟩ := List.any_eq_true.mp hl
+      exact List.length_pos_iff.mpr (List.ne_nil_of_mem (List.mem_filter.mpr ⟨hx, hxd⟩))
+    by_cases hb : c.bindOk = true
+    · simp only [hb, if_true] at h
+      cases hf : c.fam with
+      | v4 =>
+        simp only [hf] at h
+        split at h
+        · rename_i hdup
+          simp only [Bool.and_eq_true] at hdup
+          injection h with h; injection h with h; subst h
+          have h1 := anyPos v4 (by rw [← hh4]; exact hdup.2)
+          rw [boundOf_cons]
+          simp only [hb, hf, accOf, beq_self_eq_true, Bool.and_self, if_true, List.singleton_append,
+            List.filter_cons, hdup.1, List.length_cons]
+          omega
+        · have := ih (c :: v4) v6 (h4 || c.isDefault) h6 f (by simp [hh4, Bool.or_comm]) hh6 h
+          rw [boundOf_cons]
+          cases f with
+          | v4 =>
+            simp only [accOf, List.filter_cons, hb, hf, beq_self_eq_true, Bool.and_self, if_true,
+              List.singleton_append] at this ⊢
+            split at this <;> simp_all <;> omega
+          | v6 =>
+            have hne : (c.fam == Fam.v6) = false := by rw [hf]; rfl
+            simpa [accOf, hb, hne] using this
+      | v6 =>
+        simp only [hf] at h
+        split at h
+        · rename_i hdup
+          simp only [Bool.and_eq_true] at hdup
+          injection h with h; injection h with h; subst h
+          have h1 := anyPos v6 (by rw [← hh6]; exact hdup.2)
+          rw [boundOf_cons]
+          simp only [hb, hf, accOf, beq_self_eq_true, Bool.and_self, if_true, List.singleton_append,
+            List.filter_cons, hdup.1, List.length_cons]
+          omega
+        · have := ih v4 (c :: v6) h4 (h6 || c.isDefault) f hh4 (by simp [hh6, Bool.or_comm]) h
+          rw [boundOf_cons]
+          cases f with
+          | v6 =>
+            simp only [accOf, List.filter_cons, hb, hf, beq_self_eq_true, Bool.and_self, if_true,
+              List.singleton_append] at this ⊢
+            split at this <;> simp_all <;> omega
+          | v4 =>
+            have hne : (c.fam == Fam.v4) = false := by rw [hf]; rfl
+            simpa [accOf, hb, hne] using this
+    · have hb' : c.bindOk = false := by simpa using hb
+      simp only [hb', Bool.false_eq_true, if_false] at h
+      split at h
+      · cases h
+      · have := ih v4 v6 h4 h6 f hh4 hh6 h
+        rw [boundOf_cons]; simpa [hb'] using this
+
+theorem bind_dup (cfgs : List Cfg) (f : Fam) (h : bind cfgs = .error (.dupDefault f)) :
+    2 ≤ ((boundOf f cfgs).filter (·.isDefault)).length := by
+  unfold bind at h
+  split at h
+  · rename_i e he
+    injection h with h; subst h
+    have := bindLoop_dup cfgs [] [] false false f (by simp) (by simp) he
+    cases f <;> simpa [accOf] using this
+  · cases h
+
+/-- Does a user request ask for a default route of family `f`? -/
+def userDefault (f : Fam) (rs : List BReq) : Bool :=
+  rs.any fun r => r.cfg.isDefault && r.cfg.fam == f
+
+theorem hasUserDefaultT_builder (f : Fam) (ok4 ok6 : Bool) (rs : List BReq) :
+    hasUserDefaultT f (builderTransports ok4 ok6 rs) = userDefault f rs := by
+  simp [hasUserDefaultT, builderTransports, userDefault, builtinCfg, List.any_map, Function.comp_def]
+
+/-- The socket configurations `Transports::bind` hands on: each built-in wildcard unless a user
+default route of its family is configured, then all user sockets in request order. -/
+theorem ipConfigs_builder (ok4 ok6 : Bool) (rs : List BReq) :
+    ipConfigs (builderTransports ok4 ok6 rs) =
+      (if userDefault .v4 rs then [] else [builtinCfg .v4 ok4]) ++
+      (if userDefault .v6 rs then [] else [builtinCfg .v6 ok6]) ++ rs.map (·.cfg) := by
+  have h4 := hasUserDefaultT_builder .v4 ok4 ok6 rs
+  have h6 := hasUserDefaultT_builder .v6 ok4 ok6 rs
+  unfold ipConfigs
+  have hrest : ((builderTransports ok4 ok6 rs).filter fun t =>
+      t.userDefined || !hasUserDefaultT t.cfg.fam (builderTransports ok4 ok6 rs)) =
+      (if userDefault .v4 rs then [] else [⟨builtinCfg .v4 ok4, false⟩]) ++
+      (if userDefault .v6 rs then [] else [⟨builtinCfg .v6 ok6, false⟩]) ++ rs.map (fun r => ⟨r.cfg, true⟩) := by
+    generalize hT : builderTransports ok4 ok6 rs = T at h4 h6
+    have hTdef : T = [⟨builtinCfg .v4 ok4, false⟩, ⟨builtinCfg .v6 ok6, false⟩] ++ rs.map fun r => ⟨r.cfg, true⟩ := by
+      rw [← hT]; rfl
+    conv => lhs; arg 2; rw [hTdef]
+    rw [List.filter_append]
+    have huser : (rs.map fun r => (⟨r.cfg, true⟩ : TCfg)).filter
+        (fun t => t.userDefined || !hasUserDefaultT t.cfg.fam T) = rs.map fun r => ⟨r.cfg, true⟩ := by
+      apply List.filter_eq_self.mpr
+      intro t ht
+      obtain ⟨r, _, rfl⟩ := List.mem_map.mp ht
+      simp
+    rw [huser]
+    simp only [List.filter_cons, List.filter_nil, builtinCfg, Bool.false_or, h4, h6]
+    cases userDefault .v4 rs <;> cases userDefault .v6 rs <;> simp
+  rw [hrest]
+  cases userDefault .v4 rs <;> cases userDefault .v6 rs <;> simp [List.map_map, Function.comp_def]
+
+theorem famOf_inj {a b : C20.Family} (h : famOf a = famOf b) : a = b := by
+  cases a <;> cases b <;> simp_all [famOf]
+
+/-- An accepted request list asks for at most one default route per family. -/
+theorem accepted_user_defaults (rs : List BReq) (hacc : C20.accepts (rs.map (·.req)) = true) (f : C20.Family) :
+    ((rs.map (·.cfg)).filter (fun c => c.isDefault && c.fam == famOf f)).length ≤ 1 := by
+  have h := ((C20.accept_iff _).mp hacc).1 f
+  unfold C20.defaultCount at h
+  rw [List.filter_map, List.length_map] at h ⊢
+  have : (rs.filter ((fun c => c.isDefault && c.fam == famOf f) ∘ fun r => r.cfg)) =
+      rs.filter ((fun r => decide (r.family = f ∧ C20.MarksDefault r)) ∘ fun r => r.req) := by
+    apply List.filter_congr
+    intro r _
+    have hi := C20.isDefaultRoute_iff r.req
+    simp only [Function.comp, BReq.cfg]
+    by_cases h1 : r.req.family = f
+    · by_cases h2 : C20.MarksDefault r.req
+      · simp [h1, h2, hi.mpr h2]
+      · have : r.req.isDefaultRoute = false := by
+          cases hd : r.req.isDefaultRoute with
+          | false => rfl
+          | true => exact absurd (hi.mp hd) h2
+        simp [h1, h2, this]
+    · have : ¬ famOf r.req.family = famOf f := fun h => h1 (famOf_inj h)
+      simp [h1, this]
+  rw [this]; exact h
 
 end IrohModel.C19
